@@ -558,8 +558,14 @@ func c17r3(c *core.Ctx) {
 	guardPos := token.NoPos
 	for _, stt := range load.Body.List {
 		if is, ok := stt.(*ast.IfStmt); ok {
-			s := m.ExprString(is.Cond)
-			if strings.Contains(s, "entityPool.entities") && strings.Contains(s, "entityPool.available") {
+			keys := map[string]bool{}
+			ast.Inspect(is.Cond, func(x ast.Node) bool {
+				if sel, ok := x.(*ast.SelectorExpr); ok {
+					keys[fieldKeyOf(m, sel)] = true
+				}
+				return true
+			})
+			if keys["entityPool.entities"] && keys["entityPool.available"] {
 				for _, b := range is.Body.List {
 					if es, ok := b.(*ast.ExprStmt); ok {
 						if call, ok := es.X.(*ast.CallExpr); ok && m.IsBuiltin(call, "panic") {
